@@ -97,6 +97,22 @@ var locs = func() []*time.Location {
 	return l
 }()
 
+// transitionsIn: the instants (unix seconds) at which the zone's offset changes, 1900-2100
+func transitionsIn(loc *time.Location) []int64 {
+	out := []int64{}
+	t := time.Date(1900, 1, 1, 12, 0, 0, 0, loc)
+	limit := time.Date(2100, 1, 1, 0, 0, 0, 0, time.UTC)
+	for i := 0; i < 2000; i++ {
+		_, end := t.ZoneBounds()
+		if end.IsZero() || end.After(limit) {
+			break
+		}
+		out = append(out, end.Unix())
+		t = end.Add(time.Hour)
+	}
+	return out
+}
+
 var dayPool = [][3]int{{1, 1, 2}, {9999, 12, 31}, {2023, 10, 31}, {2024, 2, 29}, {2000, 2, 29}, {1900, 2, 28}, {2023, 12, 1}, {1999, 9, 9}, {2038, 1, 19}, {1970, 1, 1}, {100, 11, 30}, {2021, 1, 10}}
 
 func daysIn(y, m int) int {
